@@ -363,38 +363,39 @@ def oracle(case):
                     return (f"{name} CG reports convergence (info=0) but neither the residual ({res:.4g}) nor the "
                             f"energy criterion is met", _mk_sig("success_without_criterion", variant=name))
     # (4) eager and compiled agree (only where the eager decisions are robust against threshold noise) --------
-    stable = True
-    for sc in (1 + PERT, 1 - PERT):
+    dis = None
+    if "error" in re:
+        if "error" in rs_ or rs_["info"] != -1:
+            dis = ("eager CG raises ValueError but compiled CG does not report info=-1",
+                   _mk_sig("eager_static_disagree", what="failure"))
+    else:
+        xe = np.array(re["x"])
+        rres = np.linalg.norm(H @ xe - j)
+        # exact termination (residual at rounding level) is a rounding event: op-by-op and fused (FMA) evaluation may
+        # see gamma == 0 in different iterations; verdict and iteration count are compared only away from it
+        exact_event = rres <= 1e-13 * (np.linalg.norm(j) + np.linalg.norm(H) * np.linalg.norm(xe) + 1e-300) \
+            and case.get("kind") not in ("scaled_identity", "singular_dir")
+        if ("error" in rs_ or rs_["info"] != re["info"]) and not (exact_event and rs_.get("nit") != re["nit"]):
+            dis = (f"eager CG reports info={re['info']} but compiled CG reports "
+                   f"{rs_.get('info', rs_.get('error'))}", _mk_sig("eager_static_disagree", what="info"))
+        elif "error" not in rs_ and rs_["info"] != -1:
+            xs = np.array(rs_["x"])
+            if np.max(np.abs(xe - xs)) > XTOL * (np.max(np.abs(xe)) + 1.0):
+                dis = ("eager and compiled CG return different solutions",
+                       _mk_sig("eager_static_disagree", what="x"))
+            elif rs_["nit"] != re["nit"] and not exact_event:
+                dis = (f"eager CG stops after {re['nit']} iterations, compiled CG after {rs_['nit']}",
+                       _mk_sig("eager_static_disagree", what="nit"))
+    if dis is None:
+        return None
+    for sc in (1 + PERT, 1 - PERT):      # a disagreement counts only if the eager outcome is stable under threshold noise
         kw2 = dict(kw)
         for k in ("absdelta", "resnorm", "tol", "atol"):
             if kw2.get(k) is not None:
                 kw2[k] = kw2[k] * sc
         if _disc(_run_real(case, "eager", kw2)) != _disc(re):
-            stable = False
-    if stable:
-        if "error" in re:
-            if "error" in rs_ or rs_["info"] != -1:
-                return ("eager CG raises ValueError but compiled CG does not report info=-1",
-                        _mk_sig("eager_static_disagree", what="failure"))
-        else:
-            xe = np.array(re["x"])
-            rres = np.linalg.norm(H @ xe - j)
-            # exact termination (residual at rounding level) is a rounding event: op-by-op and fused (FMA) evaluation may
-            # see gamma == 0 in different iterations; verdict and iteration count are compared only away from it
-            exact_event = rres <= 1e-13 * (np.linalg.norm(j) + np.linalg.norm(H) * np.linalg.norm(xe) + 1e-300) \
-                and case.get("kind") not in ("scaled_identity", "singular_dir")
-            if not exact_event and ("error" in rs_ or rs_["info"] != re["info"]):
-                return (f"eager CG reports info={re['info']} but compiled CG reports "
-                        f"{rs_.get('info', rs_.get('error'))}", _mk_sig("eager_static_disagree", what="info"))
-            if "error" not in rs_ and rs_["info"] != -1:
-                xs = np.array(rs_["x"])
-                if np.max(np.abs(xe - xs)) > XTOL * (np.max(np.abs(xe)) + 1.0):
-                    return ("eager and compiled CG return different solutions",
-                            _mk_sig("eager_static_disagree", what="x"))
-                if rs_["nit"] != re["nit"] and not exact_event:
-                    return (f"eager CG stops after {re['nit']} iterations, compiled CG after {rs_['nit']}",
-                            _mk_sig("eager_static_disagree", what="nit"))
-    return None
+            return None
+    return dis
 
 
 def _eff_miniter(case):
